@@ -173,6 +173,13 @@ func PRVWBox(jpg []byte, w, h int) []byte {
 // WrapCR3 builds a Canon CR3 file skeleton around the CMT blocks.
 func WrapCR3(parts CR3Parts, rng *rand.Rand, lvl int) []byte {
 	out := Ftyp("crx ", "crx ", "isom")
+	// at level 2 nested boxes use the (legal) 64-bit size form now and then
+	Box := func(typ string, payload ...[]byte) []byte {
+		if lvl >= 2 && typ != "moov" && rng.Intn(3) == 0 {
+			return Box64(typ, payload...)
+		}
+		return Box(typ, payload...)
+	}
 	var meta []byte
 	meta = append(meta, CR3MetaUUID...)
 	cncv := []byte("CanonCR3_001/00.09.00/00.00.00")
@@ -215,15 +222,19 @@ func WrapCR3(parts CR3Parts, rng *rand.Rand, lvl int) []byte {
 		moov = append(moov, Box("trak", Box("tkhd", make([]byte, 84)))...)
 	}
 	out = append(out, Box("moov", moov)...)
+	if parts.XPacket == nil { // a CR3 file always carries the xpacket, preview and mdat boxes after moov
+		parts.XPacket = []byte("<?xpacket begin='' id='W5M0MpCehiHzreSzNTczkc9d'?><x:xmpmeta xmlns:x=\"adobe:ns:meta/\"></x:xmpmeta><?xpacket end='w'?>")
+	}
+	if parts.Preview == nil {
+		parts.Preview = append([]byte{0xFF, 0xD8}, noSig(randBytes(rng, 40))...)
+	}
 	if parts.XPacket != nil {
 		out = append(out, Box("uuid", CR3XPacketUUID, parts.XPacket)...)
 	}
 	if parts.Preview != nil {
 		out = append(out, Box("uuid", CR3PreviewUUID, []byte{0, 0, 0, 0, 0, 0, 0, 1}, PRVWBox(parts.Preview, 1620, 1080))...)
 	}
-	if lvl >= 1 {
-		out = append(out, Box("mdat", noSig(randBytes(rng, 64+rng.Intn(100))))...)
-	}
+	out = append(out, Box("mdat", noSig(randBytes(rng, 64+rng.Intn(100))))...)
 	return out
 }
 
@@ -269,6 +280,6 @@ func WrapHEIF(tiff []byte, brand string, rng *rand.Rand, lvl int) []byte {
 	base := len(ftyp) + len(meta) + 8 // mdat payload start
 	meta = mk(base, base+len(img))
 	out := append(ftyp, meta...)
-	out = append(out, Box("mdat", img, item, noSig(randBytes(rng, 16*lvl)))...)
+	out = append(out, Box("mdat", img, item, noSig(randBytes(rng, 32+16*lvl)))...)
 	return out
 }
